@@ -78,6 +78,8 @@ class CallMixin:
     argmap = self.bind_args(ctr, pos, kw, node)
     if ctr.kind == 'inline':
       return self.inline_call(ctr.node, argmap, st, node, ctr)
+    if ctr.cm:
+      return self.enter_cm(ctr, argmap, st, node)
     return self.apply_contract(ctr, argmap, st, node)
 
   def call_property(self, cid, recv, st, node):
@@ -901,15 +903,70 @@ class CallMixin:
 
   # ---------------------------------------------------------------- with
   def exec_with(self, cm, optional_vars, body, st, node):
-    self.unsupp('with statement (no context-manager model)', node)
+    """`with <contract-based context manager>: body` — enter / body / exit by contract."""
+    if not isinstance(cm, CMValue):
+      self.unsupp('with statement on a value without context-manager contract', node)
+    if optional_vars is not None:
+      self.unsupp('with ... as target', node)
+    ctr, argmap, st_enter, h_enter0 = cm.ctr, cm.argmap, st, cm.h0
+    outs = []
+    for bo in self.exec_block(body, st_enter):
+      body_heap = bo.st.heap
+      # __exit__: modifies what the contract declares, then exit_post / exc_rel hold
+      ctx_pre = C.Ctx(argmap, h_enter0, h_enter0, env=argmap)
+      se = self.havoc_call(bo.st, ctr, ctr.mod(ctx_pre))
+      ctx = C.Ctx(argmap, h_enter0, se.heap, env=argmap, body=body_heap)
+      if ctr.exit_post is not None:
+        se = se.assume(ctr.exit_post(ctx))
+      if bo.kind == 'raise':
+        E = bo.val
+        if E.val is None:
+          ev = fresh('exc_obj', I)
+          E = Exc(E.cls_term, val=VRef(ev), name=E.name, origin=E.origin)
+        fcls, fv = fresh('exit_exc_cls', I), fresh('exit_exc', I)
+        F = Exc(fcls, val=VRef(fv), name=E.name, origin=f'{E.origin} via {ctr.id}')
+        rel = ctr.exc_rel(ctx, E, F) if ctr.exc_rel is not None else z3.BoolVal(True)
+        se2 = se.assume(rel, cls_in(fcls, 'BaseException'), cls_fn(fv) == fcls)
+        outs.append(Outcome('raise', se2, F))
+        if ctr.swallows is not None:
+          sw = ctr.swallows(ctx, E)
+          if self.feasible(se, sw):
+            outs.append(Outcome('normal', se.assume(sw)))
+      else:
+        outs.append(Outcome(bo.kind, se, bo.val))
+    return outs
+
+  def enter_cm(self, ctr, argmap, st, node):
+    """Call of a context-manager function: __enter__ by contract; returns [Res(CMValue)]."""
+    line = getattr(node, 'lineno', None)
+    ctx_pre = C.Ctx(argmap, st.heap, st.heap, env=argmap)
+    self.oblige(f'call:{ctr.id}@{line}/pre', 'call-pre', st, ctr.requires(ctx_pre),
+                f'precondition of {ctr.id}', line)
+    out = []
+    conds = []
+    mod = ctr.mod(ctx_pre)
+    for name, cond in ctr.raises.items():
+      cnd = cond(ctx_pre)
+      conds.append(cnd)
+      if self.feasible(st, cnd):
+        se = self.havoc_call(st.assume(cnd), ctr, mod)
+        if name in ctr.raises_post:
+          se = se.assume(ctr.raises_post[name](C.Ctx(argmap, st.heap, se.heap, env=argmap)))
+        out.append(Res(se, exc=Exc(name, origin=f'{ctr.id}@{line}')))
+    sn = st.assume(z3.Not(z3.Or(conds))) if conds else st
+    if self.feasible(sn):
+      sn2 = self.havoc_call(sn, ctr, mod)
+      if ctr.enter_ensures is not None:
+        sn2 = sn2.assume(ctr.enter_ensures(C.Ctx(argmap, st.heap, sn2.heap, env=argmap)))
+      out.append(Res(sn2, CMValue(ctr, argmap, sn2, st.heap)))
+    return out
 
 
-# classes whose construction is "allocate and set these fields" (dataclasses / trivial __init__)
-DATACLASSES = {
-    '_Placeholder': ['index'],
-    'HistoryEntry': ['sequence_id', 'param_name', 'kind', 'new_value', 'location'],
-    'Location': ['filename', 'line_number', 'function_name'],
-}
+class CMValue(Abstract):
+  """An entered contract-based context manager."""
+
+  def __init__(self, ctr, argmap, st, h0):
+    self.ctr, self.argmap, self.st, self.h0 = ctr, argmap, st, h0
 
 
 def _ancestors(name):
